@@ -300,10 +300,17 @@ var modulePrograms = []string{
 }
 
 var moduleDir string
+var ownModuleDir bool
 
 func setupModules() {
-	d, err := os.MkdirTemp("", "c06h-mods-")
-	if err != nil {
+	d := os.Getenv("C06H_MODDIR") // given (and removed afterwards) by the driver, so that a run that dies leaves nothing behind
+	if d == "" {
+		var err error
+		if d, err = os.MkdirTemp("", "c06h-mods-"); err != nil {
+			panic(err)
+		}
+		ownModuleDir = true
+	} else if err := os.MkdirAll(d, 0o755); err != nil {
 		panic(err)
 	}
 	moduleDir = d
@@ -536,7 +543,11 @@ func main() {
 		return s
 	}
 	setupModules()
-	defer os.RemoveAll(moduleDir)
+	defer func() {
+		if ownModuleDir {
+			os.RemoveAll(moduleDir)
+		}
+	}()
 	scs := scenarios(*tier)
 	for i, sc := range scs {
 		if *only != "" && sc.key != *only {
